@@ -277,6 +277,10 @@ def main(args: Any) -> int:
             c13_ignore = None  # type: ignore[assignment]
         if c13_ignore is not None:
             c13_ignore.run(rep, args.tier)
+    if only is None or "K3" in only:
+        from vf import c13_post
+
+        c13_post.run(rep, args.tier)
     return rep.finish()
 
 
